@@ -99,7 +99,7 @@ Lemma new_switch_dec_sim phi uu n operand timeout r0 n1 :
 Proof.
   unfold new_switch. destruct (new_cat fresh n s_Other None) as [[other n']|e] eqn:E; [|discriminate].
   apply (new_cat_spec fresh fresh_inj) in E as (-> & ->).
-  intros H Ht. assert (Hr : exists w, r0 = mkSwitch operand None w [] [] (mkCCat (fresh n) s_Other (mkCExit (fresh (S n)) None))
+  intros H Ht. assert (Hr : exists w, r0 = mkSwitch operand None w [] [] (mkCCat (fresh n) s_Other (mkCExit (fresh (S n)) None)) []
                                      /\ ((timeout = None /\ w = CWNone) \/ (timeout = Some 0%N /\ w = CWMsg))).
   { destruct Ht as [->| ->]; injection H as <- <-; eexists; split; eauto. }
   destruct Hr as (w & -> & Hw). constructor; cbn.
@@ -108,9 +108,11 @@ Proof.
   - reflexivity.
   - unfold wait_sim. cbn. destruct Hw as [[-> ->]|[-> ->]]; reflexivity.
   - constructor.
-  - split; cbn; [exact gname_other|exact I].
+  - split; cbn [fst snd fresh_dec rd_default cc_name]; [apply name_sim_wild; intros _; exact gname_other|exact I].
   - constructor.
   - unfold sw_all_cats. cbn. destruct Hw as [[_ ->]|[_ ->]]; cbn; (constructor; [intros []|constructor]).
+  - constructor; cbn; [constructor|intros u []|].
+    intros _. unfold sw_all_cats. cbn. destruct Hw as [[_ ->]|[_ ->]]; cbn; (constructor; [intros []|constructor]).
 Qed.
 
 (* ---------------------------------------------------------------- a conditional edge into a plain router *)
@@ -130,8 +132,8 @@ Definition ref_add (cls : eclass) (d : rdec) (c : econd) (tgt : dest) : rdec :=
 (* what cond_ok says of the category name, for the two argument lists an edge may be compiled with *)
 Lemma cond_ok_names c : cond_ok c -> name_ok (c_cname c) (ref_args c) /\ name_ok (c_cname c) [None; Some (c_value c)].
 Proof.
-  intros (_ & _ & H & _). unfold name_ok. destruct (c_cname c) as [|a nm]; [|auto].
-  split; intros k; apply (H k).
+  intros (_ & _ & H & _). unfold name_ok, cname_ok in *. destruct explicit_names_claimed; [auto|].
+  destruct (c_cname c) as [|a nm]; [|auto]. split; intros k; apply (H k).
 Qed.
 
 Lemma plain_edge_dec phi uu n U cls rt d r c tgt dd r' n' :
@@ -197,7 +199,7 @@ Qed.
 
 Lemma sw_upd_cat_head p f r c rest :
   sw_cats r = c :: rest -> p c = true ->
-  sw_upd_cat p f r = mkSwitch (sw_operand r) (sw_result r) (sw_wait r) (sw_cases r) (f c :: rest) (sw_default r).
+  sw_upd_cat p f r = mkSwitch (sw_operand r) (sw_result r) (sw_wait r) (sw_cases r) (f c :: rest) (sw_default r) (sw_auto r).
 Proof. intros E Hp. unfold sw_upd_cat. rewrite E. cbn. rewrite Hp. cbn. reflexivity. Qed.
 
 (* the single fixed category of an enter-flow / webhook / airtime router is re-targeted by name *)
